@@ -126,3 +126,20 @@ func W[T any](p *T, site int) *T {
 	}
 	return p
 }
+
+// MR / MW record a read / write of a map object (keyed by the map's header pointer, so every variable that
+// holds the same map maps to the same location). Go's runtime aborts the process on concurrent map access it
+// notices; here an unordered pair is reported as a race on a "map:" site.
+func MR[M ~map[K]V, K comparable, V any](m M, site int) M {
+	if MemOn && S != nil && !S.aborting && m != nil {
+		S.access(*(*unsafe.Pointer)(unsafe.Pointer(&m)), site, false)
+	}
+	return m
+}
+
+func MW[M ~map[K]V, K comparable, V any](m M, site int) M {
+	if MemOn && S != nil && !S.aborting && m != nil {
+		S.access(*(*unsafe.Pointer)(unsafe.Pointer(&m)), site, true)
+	}
+	return m
+}
